@@ -1,8 +1,12 @@
 #[macro_use]
 pub mod engine;
+pub mod answerable;
 pub mod cli;
 pub mod codec;
+pub mod dec_app;
+pub mod sig;
 pub mod gen;
+pub mod normalise;
 pub mod gen_app;
 pub mod props;
 pub mod selftest;
